@@ -375,6 +375,82 @@ theorem corrected_step_lower (n : Nat) (dt : α) (psd nf : Nat → α) (i : Nat)
   have h2 := limiter_right n dt psd nf i hi hdt
   nlinarith
 
+/-- **the correction is inactive under the step limit**: if every face moves by at most `ratio ≤ 1`
+class widths in `dt` (uniform width `w`), the face-wise limiter changes nothing — the corrected
+fluxes are the upwind fluxes. -/
+theorem correction_inactive_under_limit (n : Nat) (flux psd : Nat → α) (w dt ratio : α)
+    (hw : 0 < w) (hdt : 0 < dt) (hpsd : ∀ j, 0 ≤ psd j) (hr1 : ratio ≤ 1)
+    (hlim : ∀ j, dt * |flux j| ≤ ratio * w) (j : Nat) :
+    correctedFlux n dt psd (netFlux n flux psd (fun _ => w)) j = netFlux n flux psd (fun _ => w) j := by
+  have hr0 : 0 ≤ ratio := by
+    have := le_trans (mul_nonneg hdt.le (abs_nonneg (flux 0))) (hlim 0)
+    exact nonneg_of_mul_nonneg_left this hw
+  -- bound of a face flux by the population of its upwind class
+  have hbelow : ∀ i, i < n → ¬ (netFlux n flux psd (fun _ => w) i * dt < - psd i) := by
+    intro i hi
+    rw [not_lt]
+    by_cases hf : 0 < flux i
+    · have := netFlux_sign_growth n i flux psd (fun _ => w) hpsd (fun _ => hw) hf
+      have h2 : 0 ≤ netFlux n flux psd (fun _ => w) i * dt := mul_nonneg this hdt.le
+      linarith [hpsd i]
+    · have hf' : flux i ≤ 0 := not_lt.mp hf
+      rw [netFlux_dissolution n i flux psd (fun _ => w) hi hf']
+      have hl := hlim i
+      rw [abs_of_nonpos hf'] at hl
+      have : flux i * psd i / w * dt = - ((dt * -flux i) * psd i / w) := by ring
+      rw [this, neg_le_neg_iff, div_le_iff₀ hw]
+      calc dt * -flux i * psd i ≤ ratio * w * psd i := mul_le_mul_of_nonneg_right hl (hpsd i)
+        _ ≤ 1 * w * psd i := by
+            apply mul_le_mul_of_nonneg_right _ (hpsd i)
+            exact mul_le_mul_of_nonneg_right hr1 hw.le
+        _ = psd i * w := by ring
+  have habove : ∀ i, 1 ≤ i → ¬ (psd (i-1) < netFlux n flux psd (fun _ => w) i * dt) := by
+    intro i hi
+    rw [not_lt]
+    by_cases hf : 0 < flux i
+    · rw [netFlux_growth n i flux psd (fun _ => w) hi hf]
+      have hl := hlim i
+      rw [abs_of_pos hf] at hl
+      have : flux i * psd (i-1) / w * dt = (dt * flux i) * psd (i-1) / w := by ring
+      rw [this, div_le_iff₀ hw]
+      calc dt * flux i * psd (i-1) ≤ ratio * w * psd (i-1) := mul_le_mul_of_nonneg_right hl (hpsd _)
+        _ ≤ 1 * w * psd (i-1) := by
+            apply mul_le_mul_of_nonneg_right _ (hpsd _)
+            exact mul_le_mul_of_nonneg_right hr1 hw.le
+        _ = psd (i-1) * w := by ring
+    · have hf' : flux i ≤ 0 := not_lt.mp hf
+      have := netFlux_sign_dissolution n i flux psd (fun _ => w) hpsd (fun _ => hw) hf'
+      have h2 : netFlux n flux psd (fun _ => w) i * dt ≤ 0 := mul_nonpos_of_nonpos_of_nonneg this hdt.le
+      linarith [hpsd (i-1)]
+  have hLB : limitBelow n dt psd (netFlux n flux psd (fun _ => w)) j = netFlux n flux psd (fun _ => w) j := by
+    unfold limitBelow
+    split
+    · next h => exact absurd h.2 (hbelow j h.1)
+    · rfl
+  unfold correctedFlux limitAbove
+  split
+  · next h =>
+    exfalso
+    have h3 := h.2.2
+    rw [hLB] at h3
+    exact habove j h.1 h3
+  · exact hLB
+
+/-- consequently a class whose faces obey the limit with `ratio ≤ 1/2` stays non-negative under
+the CORRECTED update as well (what the solver actually applies). -/
+theorem nonneg_corrected_under_limit (n : Nat) (flux psd : Nat → α) (w dt ratio : α) (i : Nat) (hi : i < n)
+    (k : Nat) (r : α) (hr : 0 ≤ r)
+    (hw : 0 < w) (hdt : 0 < dt) (hpsd : ∀ j, 0 ≤ psd j) (hratio : ratio ≤ 1/2)
+    (hlim : ∀ j, dt * |flux j| ≤ ratio * w) :
+    0 ≤ psd i + dt * dXdt (correctedFlux n dt psd (netFlux n flux psd (fun _ => w))) k r i := by
+  have h1 : ratio ≤ 1 := by linarith
+  have e1 := correction_inactive_under_limit n flux psd w dt ratio hw hdt hpsd h1 hlim i
+  have e2 := correction_inactive_under_limit n flux psd w dt ratio hw hdt hpsd h1 hlim (i+1)
+  have := nonneg_under_limit n flux psd (fun _ => w) i hi dt ratio k r hr hdt hpsd (fun _ => hw) hratio (hlim i) (hlim (i+1))
+  unfold dXdt at *
+  rw [e1, e2]
+  exact this
+
 /-! ### dissolution index: which faces are "relevant" for the step limit -/
 
 theorem argmaxFirst_lt_or_zero (p : Nat → Bool) (len : Nat) :
